@@ -5,49 +5,77 @@ import (
 	"math"
 	"time"
 
+	"github.com/EliCDavis/polyform/math/geometry"
 	"github.com/EliCDavis/polyform/math/sample"
 	"github.com/EliCDavis/polyform/modeling"
 	"github.com/EliCDavis/polyform/modeling/marching"
 	"github.com/EliCDavis/vector/vector3"
 )
 
+// solid is a shape in world units: what marching.Sphere/Box/Line are called
+// with, and what the harness' own closed forms are evaluated on.
+type solid struct {
+	t    string          // sphere | box | line
+	p, q vector3.Float64 // sphere: centre p; box: centre p, full size q; line: from p to q
+	r    float64         // radius
+	s    float64         // strength
+}
+
 // dist is the harness' own closed form of the shape's signed distance (it
 // does not call math/sdf: the distance of an observed vertex to the analytic
 // surface is part of the projection and must not depend on the code under
 // test).
-func (s Shape) dist(v vector3.Float64, unit float64) float64 {
-	p := v3(s.P, unit)
-	r := float64(s.R) / unit
-	switch s.T {
+func (s solid) dist(v vector3.Float64) float64 {
+	switch s.t {
 	case "sphere":
-		return v.Sub(p).Length() - r
+		return v.Sub(s.p).Length() - s.r
 	case "box":
-		h := v3(s.Q, unit).Scale(0.5)
-		d := v.Sub(p)
+		h := s.q.Scale(0.5)
+		d := v.Sub(s.p)
 		qx, qy, qz := math.Abs(d.X())-h.X(), math.Abs(d.Y())-h.Y(), math.Abs(d.Z())-h.Z()
 		out := math.Sqrt(math.Max(qx, 0)*math.Max(qx, 0) + math.Max(qy, 0)*math.Max(qy, 0) + math.Max(qz, 0)*math.Max(qz, 0))
 		return out + math.Min(math.Max(qx, math.Max(qy, qz)), 0)
 	case "line":
-		a, b := p, v3(s.Q, unit)
+		a, b := s.p, s.q
 		ab := b.Sub(a)
 		t := 0.0
 		if l2 := ab.Dot(ab); l2 > 0 {
 			t = math.Max(0, math.Min(1, v.Sub(a).Dot(ab)/l2))
 		}
-		return v.Sub(a.Add(ab.Scale(t))).Length() - r
+		return v.Sub(a.Add(ab.Scale(t))).Length() - s.r
 	}
-	panic("unknown shape " + s.T)
+	panic("unknown solid " + s.t)
 }
 
-func (s Shape) field(unit float64) marching.Field {
+func (s solid) field() marching.Field {
+	switch s.t {
+	case "sphere":
+		return marching.Sphere(s.p, s.r, s.s)
+	case "box":
+		return marching.Box(s.p, s.q, s.s)
+	case "line":
+		return marching.Line(s.p, s.q, s.r, s.s)
+	}
+	panic("unknown solid " + s.t)
+}
+
+// solidOf turns a case's shape into world units (graze.go for the kinds given
+// relative to the lattice).
+func solidOf(s Shape, c Case) solid {
+	unit := float64(c.Unit)
+	if c.Unit == 0 {
+		unit = 1000
+	}
 	st := float64(s.S) / 1000
 	switch s.T {
 	case "sphere":
-		return marching.Sphere(v3(s.P, unit), float64(s.R)/unit, st)
+		return solid{t: "sphere", p: v3(s.P, unit), r: float64(s.R) / unit, s: st}
 	case "box":
-		return marching.Box(v3(s.P, unit), v3(s.Q, unit), st)
+		return solid{t: "box", p: v3(s.P, unit), q: v3(s.Q, unit), s: st}
 	case "line":
-		return marching.Line(v3(s.P, unit), v3(s.Q, unit), float64(s.R)/unit, st)
+		return solid{t: "line", p: v3(s.P, unit), q: v3(s.Q, unit), r: float64(s.R) / unit, s: st}
+	case "gsphere", "gbox", "gline":
+		return grazing(s, c)
 	}
 	panic("unknown shape " + s.T)
 }
@@ -64,10 +92,14 @@ func execShape(c Case, raw json.RawMessage) Line {
 	}
 	cpu := float64(c.Cpu)
 	cutoff := float64(c.Cut) / 1000
+	solids := make([]solid, len(c.Shapes))
+	for i, s := range c.Shapes {
+		solids[i] = solidOf(s, c)
+	}
 	m, res, msg := guarded(10*time.Minute, func() modeling.Mesh {
-		fields := make([]marching.Field, len(c.Shapes))
-		for i, s := range c.Shapes {
-			fields[i] = s.field(unit)
+		fields := make([]marching.Field, len(solids))
+		for i, s := range solids {
+			fields[i] = s.field()
 		}
 		f := marching.CombineFields(fields...)
 		if c.Attr != modeling.PositionAttribute {
@@ -75,11 +107,39 @@ func execShape(c Case, raw json.RawMessage) Line {
 				c.Attr: f.Float1Functions[modeling.PositionAttribute]}}
 		}
 		canvas := marching.NewMarchingCanvas(float64(c.Cpu))
-		canvas.AddField(f)
-		if c.Attr == modeling.PositionAttribute {
-			return canvas.March(cutoff)
+		// Decoy: the canvas also carries ANOTHER scalar attribute (a box shifted
+		// by 37.5 cells that reaches into other storage blocks); the marched
+		// attribute must not notice.
+		decoy := func() {
+			size := f.Domain.Size().Scale(0.8)
+			centre := f.Domain.Center().Add(vector3.Fill(37.5 / cpu))
+			canvas.AddField(marching.Field{Domain: geometry.NewAABB(centre, size.Scale(1.5)), Float1Functions: map[string]sample.Vec3ToFloat{
+				"decoy": marching.Box(centre, size, 1).Float1Functions[modeling.PositionAttribute]}})
 		}
-		return canvas.MarchOnAttribute(c.Attr, cutoff)
+		if c.Decoy == 1 {
+			decoy()
+		}
+		canvas.AddField(f)
+		if c.Decoy == 2 {
+			decoy()
+		}
+		march := func(cut float64) modeling.Mesh {
+			switch {
+			case c.Par == 1 && c.Attr == modeling.PositionAttribute:
+				return canvas.MarchParallel(cut)
+			case c.Par == 1:
+				return canvas.MarchOnAttributeParallel(c.Attr, cut)
+			case c.Attr == modeling.PositionAttribute:
+				return canvas.March(cut)
+			}
+			return canvas.MarchOnAttribute(c.Attr, cut)
+		}
+		// Pre: the same canvas has been marched before, at other thresholds; the
+		// observed march is the last one.
+		for k := c.Pre; k > 0; k-- {
+			_ = march(cutoff - 0.013*float64(k)/cpu)
+		}
+		return march(cutoff)
 	})
 	ln.Res, ln.Err = res, msg
 	if res != "OK" {
@@ -98,8 +158,8 @@ func execShape(c Case, raw json.RawMessage) Line {
 		ln.Pos = append(ln.Pos, []int{
 			roundTo(q.X(), float64(c.Scale), &inexact), roundTo(q.Y(), float64(c.Scale), &inexact), roundTo(q.Z(), float64(c.Scale), &inexact)})
 		f := math.Inf(1)
-		for _, s := range c.Shapes {
-			f = math.Min(f, float64(s.S)/1000*s.dist(p, unit))
+		for _, s := range solids {
+			f = math.Min(f, s.s*s.dist(p))
 		}
 		fd := math.Round((f - cutoff) * 1000)
 		if math.IsNaN(fd) || fd > 50000 {
